@@ -17,6 +17,9 @@ Oracle on the REAL `Actor` / `BackgroundService` / `run` (independent of the Lea
   wait-quiescent / wait-surfaces : same for wait() (its group also carries the CancelledErrors)
   run-all         : run(*actors) returns at the first instant at which every actor has been idle (no pending task)
                     at least once since the call — not earlier, not later
+  cancel-and-await-quiescent / -outcome : `_internal._asyncio.cancel_and_await(task)` returned ⇒ `task.done()`
+                    (task not started / running / already cancelled once or several times / done; 1-3 concurrent
+                    callers); it raises nothing, or the task's own Exception/BaseException — never CancelledError
 Correspondence: the same case through `lean/Drivers/Actor.lean`, all observations compared exactly.
 """
 from __future__ import annotations
@@ -33,7 +36,10 @@ RULE = ("1-3 probe actors (restart limit 0/1/2/3/None, 1-4 scripted `_run` invoc
         "wait/add task/run) at instants on a half-second lattice ± 1 ms (just before/after the internal timers: run end, "
         "restart-delay expiry, clean-up end); extra tasks may register a clean-up task when cancelled; thorough adds the "
         "exhaustive product limit{0,1,2,None} x outcomes^3 x {stop,cancel,wait} x 14 positions; non-trivial = a restart, "
-        "a cancellation delivered to a started task, or a task added while a call is waiting; distinct by JSON hash")
+        "a cancellation delivered to a started task, or a task added while a call is waiting; plus (1/4 of the budget) "
+        "cancel_and_await cases: a probe task with 0-3 clean-up awaits per delivered cancellation, bare cancel() calls and "
+        "1-3 concurrent cancel_and_await callers from every prior state (thorough: exhaustive small product); distinct by "
+        "JSON hash")
 
 KNOWN_REGIME = "TaskAddedDuringWait"
 
@@ -218,6 +224,47 @@ def check_case(ctx: Ctx, case: dict, extra_tags: tuple[str, ...] = ()) -> dict:
     return obs
 
 
+# --------------------------------------------------------------------------------------- cancel_and_await
+def oracle_caa(case: dict, obs: dict, facts: dict) -> list[tuple[str, dict]]:
+    """`cancel_and_await` returned ⇒ `task.done()`; it swallows the task's CancelledError and propagates only the
+    task's own Exception / BaseException (nothing when the task was already done at the call)."""
+    bad = []
+    for ci, c in enumerate(facts["callers"]):
+        if c["ret"] is None:
+            continue
+        if not c["task_done_at_ret"]:
+            bad.append(("cancel-and-await-quiescent", {"call": ci, "t_call": c["t"], "t_ret": c["ret"],
+                                                       "task_done_at": facts["done_at"], "task_state": facts["state"]}))
+            continue
+        if c["raised"] == "cancelled":
+            bad.append(("cancel-and-await-outcome", {"call": ci, "why": "CancelledError leaked", "task_state": facts["state"]}))
+        elif c["done_at_call"]:
+            if c["raised"] != "none":
+                bad.append(("cancel-and-await-outcome", {"call": ci, "why": "raised although the task was done at the call", "raised": c["raised"]}))
+        else:
+            want = facts["state"] if facts["state"] in ("exc", "base") else "none"
+            if c["raised"] != want:
+                bad.append(("cancel-and-await-outcome", {"call": ci, "raised": c["raised"], "task_state": facts["state"]}))
+    return bad
+
+
+def check_caa(ctx: Ctx, case: dict, extra_tags: tuple[str, ...] = ()) -> dict:
+    obs, facts = g.run_caa_impl(case)
+    ops = [op for grp in case["ctl"] for op in grp["ops"]]
+    tags = ["caa", f"caa:callers={min(ops.count('caa'), 3)}", f"caa:bare-cancels={min(ops.count('cancel'), 3)}",
+            "caa:first=" + "+".join(case["ctl"][0]["ops"])] + list(extra_tags)
+    if any(o["k"] > 0 for o in case["task"]["oc"]):
+        tags.append("caa:slow-cleanup")
+    seen = set()
+    for clause, info in oracle_caa(case, obs, facts):
+        if clause not in seen:
+            seen.add(clause)
+            ctx.violation(clause, case, info, regime=None)
+    ctx.case(case, tags=tags, nontrivial=ops.count("caa") >= 1 and (ops.count("cancel") >= 1 or ops.count("caa") >= 2
+                                                                    or "caa:slow-cleanup" in tags))
+    return obs
+
+
 def load_corpus() -> list[dict]:
     d = pathlib.Path(__file__).resolve().parent.parent / "corpus" / "C10"
     return [json.loads(p.read_text()) for p in sorted(d.glob("*.json"))] if d.exists() else []
@@ -229,17 +276,24 @@ def run(ctx: Ctx) -> None:
     n = ctx.budget(4000, 40000)
     cases, outs = [], []
     for c in load_corpus():
-        c = {k: v for k, v in c.items() if k in ("limits", "actors", "ctl", "end")}
+        c = {k: v for k, v in c.items() if k != "note"}
         cases.append(c)
-        outs.append(check_case(ctx, c, ("corpus",)))
+        outs.append(check_caa(ctx, c, ("corpus",)) if c.get("kind") == "caa" else check_case(ctx, c, ("corpus",)))
     if ctx.tier == "thorough":
         for c in g.exhaustive_cases():
             cases.append(c)
             outs.append(check_case(ctx, c, ("exhaustive",)))
+        for c in g.exhaustive_caa_cases():
+            cases.append(c)
+            outs.append(check_caa(ctx, c, ("exhaustive",)))
     for i in range(n):
         c = g.gen_case(ctx.subrng("case", i))
         cases.append(c)
         outs.append(check_case(ctx, c))
+    for i in range(max(n // 4, 1)):
+        c = g.gen_caa_case(ctx.subrng("caa", i))
+        cases.append(c)
+        outs.append(check_caa(ctx, c))
     ctx.compare("Actor", cases, outs, what="C10 observations (run history, call results, run() returns, samples)")
 
 
@@ -248,6 +302,11 @@ def replay(ctx: Ctx, data: dict) -> None:
     case = data.get("case")
     if not case or "ctl" not in case:
         return run(ctx)
+    case = {k: v for k, v in case.items() if k != "note"}
+    if case.get("kind") == "caa":
+        out = check_caa(ctx, case, ("replay",))
+        ctx.compare("Actor", [case], [out])
+        return None
     case = {k: v for k, v in case.items() if k in ("limits", "actors", "ctl", "end")}
     out = check_case(ctx, case, ("replay",))
     ctx.compare("Actor", [case], [out])
